@@ -158,9 +158,22 @@ def mixed_pickle_frame(rng, dps):
   return struct.pack('!L', len(payload)) + payload, 'mixed-entries'
 
 
-def bad_line(rng):
-  k = rng.choice(['utf8', 'utf8b', 'fields2', 'fields4', 'number', 'nants', 'infts', 'empty', 'neginf', 'hugets',
-                  'longbad', 'longutf8', 'twice', 'twice'])
+_DECKS = {}
+
+
+def deal(rng, key, values):
+  """every value comes up once per cycle (shuffled decks per key): a quick run covers every kind for every listener,
+  whatever the seed"""
+  d = _DECKS.setdefault(key, [])
+  if not d:
+    d.extend(values)
+    rng.shuffle(d)
+  return d.pop()
+
+
+def bad_line(rng, key='line'):
+  k = deal(rng, ('bad_line', key), ['utf8', 'utf8b', 'fields2', 'fields4', 'number', 'nants', 'infts', 'empty', 'neginf', 'hugets',
+                                    'longbad', 'longutf8', 'twice', 'twice'])
   if k == 'twice':
     # the same malformed text several times in a row (a sender stuck on a bad value): every copy is skipped
     bad = rng.choice([b'tw.x 2 10x00\n', b'tw.y abc 1500000000\n', b'tw.z 1 1e999x\n', b'tw.w 3 --5\n', b'tw.v 1\n'])
@@ -191,8 +204,8 @@ def bad_line(rng):
 
 
 def bad_pickle(rng):
-  k = rng.choice(['garbage', 'trunc', 'notlist', 'notiter', 'shape', 'types', 'name', 'global', 'nants', 'infts',
-                  'cross', 'cross', 'hugeint'])
+  k = deal(rng, ('bad_pickle',), ['garbage', 'trunc', 'notlist', 'notiter', 'shape', 'types', 'name', 'global', 'nants', 'infts',
+                                  'cross', 'cross', 'hugeint'])
   if k == 'cross':
     names = [None, 5, b'bytes', ('t',), ('a', 'b'), (), ['l'], {'d': 1}, 3.5, True, 'ok']
     vals = [('x', 2.0), (None, 2.0), ([1], 2.0), (1.0, {}), (1.0, 'y'), ((), ()), (10 ** 400, 2), (2, 10 ** 400), (1.0, 2.0), (float('nan'), float('inf'))]
